@@ -123,6 +123,15 @@ Theorem C10_postproc_matches_paulis :
                                               && (snd (fst x) =? 16) && (snd x =? 4)) gs end) gen_bell_paulis = true.
 Proof. vm_compute. repeat split; reflexivity. Qed.
 
+(* a Bell state reported through qlink-interface 1.0 (enum member or plain integer in qlink's
+   numbering, K and M responses) reaches the correction code / the post-processing as the state of
+   the same name: the real conversion function tabulated on all 4 x 2 x 2 inputs agrees with the
+   by-name map *)
+Theorem C10_bell_state_by_name :
+  forallb (fun x => String.eqb (snd (fst x)) (snd x)) gen_bell_conv = true /\
+  Nat.eqb (List.length gen_bell_conv) (4 * List.length gen_qlink_BellState) = true.
+Proof. vm_compute. split; reflexivity. Qed.
+
 (* the named bases: rotation_to_basis inverts basis_to_rotation (post-processing recognises
    the basis the request was made with); 6 rows *)
 Theorem C10_named_bases_roundtrip :
